@@ -63,7 +63,7 @@ public:
             read_next(local_ec);
             if (local_ec)
             {
-                if (local_ec == json_errc::unexpected_eof)
+                if (local_ec == json_errc::unexpected_eof && parser_.enter()) // nothing but white space was read
                 {
                     done_ = true;
                 }
@@ -103,7 +103,7 @@ public:
             read_next(local_ec);
             if (local_ec)
             {
-                if (local_ec == json_errc::unexpected_eof)
+                if (local_ec == json_errc::unexpected_eof && parser_.enter()) // nothing but white space was read
                 {
                     done_ = true;
                 }
@@ -181,7 +181,7 @@ public:
             read_next(local_ec);
             if (local_ec)
             {
-                if (local_ec == json_errc::unexpected_eof)
+                if (local_ec == json_errc::unexpected_eof && parser_.enter()) // nothing but white space was read
                 {
                     done_ = true;
                 }
@@ -211,7 +211,7 @@ public:
             read_next(local_ec);
             if (local_ec)
             {
-                if (local_ec == json_errc::unexpected_eof)
+                if (local_ec == json_errc::unexpected_eof && parser_.enter()) // nothing but white space was read
                 {
                     done_ = true;
                 }
@@ -498,7 +498,7 @@ private:
             read_next(local_ec);
             if (local_ec)
             {
-                if (local_ec == json_errc::unexpected_eof)
+                if (local_ec == json_errc::unexpected_eof && parser_.enter()) // nothing but white space was read
                 {
                     done_ = true;
                 }
